@@ -888,6 +888,83 @@ theorem c11_members_no_panic (vs : List Json) (x : Json) : ∃ b, (fromEnumJ vs)
       | true => exact ⟨false, rfl⟩
       | false => exact ⟨_, unionParse_members (v :: vs') x⟩
 
+/-! #### round trip of const / enum documents with members of every JSON kind -/
+
+theorem litTypeOK_of_eq (v x : Json) (h : jsonEq x v = true) : litTypeOK v x = true := by
+  cases v <;> cases x <;> simp_all [jsonEq, litTypeOK]
+
+/-- a member that is not an array comes back as a document that validates exactly the instances equal to it. -/
+theorem rtLitValid_nonarray (v x : Json) (hv : v.isArr = false) : rtLitValid v x = jsonEq x v := by
+  have key : (litTypeOK v x && (jsonEq x v || false)) = jsonEq x v := by
+    cases h : jsonEq x v with
+    | true => simp [litTypeOK_of_eq v x h]
+    | false => simp
+  cases v <;> simp [Json.isArr] at hv <;> simpa [rtLitValid] using key
+
+theorem rtValid_literalSchemaJ (v x : Json) (hv : v.isArr = false) : (literalSchemaJ v).rtValid x = jsonEq x v := by
+  cases v with
+  | null => cases x <;> simp [literalSchemaJ, LitZ.rtValid, Json.isNull, jsonEq]
+  | arr xs => simp [Json.isArr] at hv
+  | _ => simp only [literalSchemaJ, LitZ.rtValid]; exact rtLitValid_nonarray _ x hv
+
+theorem any_jsonEq_strs' (strs : List Str) (x : Json) :
+    (strs.map Json.str).any (fun v => jsonEq x v) = (match x with | .str s => strs.contains s | _ => false) := by
+  induction strs with
+  | nil => cases x <;> simp
+  | cons s strs ih =>
+    simp only [List.map_cons, List.any_cons, ih]
+    cases x <;> simp [jsonEq]
+    rename_i a
+    by_cases e : a = s <;> simp [e]
+
+/-- **round trip for enum documents without an array member** (scalars, null, objects, any mixture): ToJSONSchema of the
+    produced schema validates exactly the instances of the original — the null member included, which Parse gets wrong. -/
+theorem c11_roundtrip_enum (vs : List Json) (x : Json) (hne : vs ≠ []) (hv : vs.any (fun v => v.isArr) = false) :
+    (fromEnumJ vs).rtValid x = enumValidJ vs x := by
+  obtain ⟨v, vs', rfl⟩ := List.exists_cons_of_ne_nil hne
+  simp only [fromEnumJ]
+  cases hs : allStrsJ (v :: vs') with
+  | some strs =>
+    simp only [CE.rtValid, enumValidJ]
+    rw [allStrsJ_some _ strs hs, any_jsonEq_strs']
+    cases x <;> rfl
+  | none =>
+    simp only [CE.rtValid, enumValidJ, List.any_map]
+    have : ∀ l : List Json, l.any (fun v => v.isArr) = false →
+        l.any ((fun l => l.rtValid x) ∘ literalSchemaJ) = l.any (fun v => jsonEq x v) := by
+      intro l hl
+      induction l with
+      | nil => rfl
+      | cons w l ih =>
+        simp only [List.any_cons, Bool.or_eq_false_iff] at hl
+        simp only [List.any_cons, Function.comp, rtValid_literalSchemaJ w x hl.1]
+        rw [← ih hl.2]
+    exact this _ hv
+
+theorem c11_roundtrip_const (v x : Json) (hv : v.isArr = false) : (fromConstJ v).rtValid x = constValidJ v x := by
+  simp only [fromConstJ, CE.rtValid, constValidJ, rtValid_literalSchemaJ v x hv]
+
+example : [Json.obj (.cons [97] (.num 4) .nil), .null, .str [120], .num 6].any (fun v => v.isArr) = false := by decide
+
+/-- full strength: FALSE — an array member is flattened by to.go's `convertLiteral` (finding array-literal-flattened). -/
+def c11_roundtrip_members_full : Prop := ∀ (v x : Json), (fromConstJ v).rtValid x = constValidJ v x
+
+/-- `{const:[1]}` accepts `[1]` (since e48d4b1) but comes back as `{const:1,type:number}`, which rejects `[1]` and
+    accepts `1`; `{const:[1,"a"]}` comes back as `{enum:[1,"a"],type:number}`; `{const:[]}` as `{}`. -/
+theorem witness_roundtrip_array_const :
+    (fromConstJ (.arr (.cons (.num 4) .nil))).parse (.arr (.cons (.num 4) .nil)) = some true
+    ∧ constValidJ (.arr (.cons (.num 4) .nil)) (.arr (.cons (.num 4) .nil)) = true
+    ∧ (fromConstJ (.arr (.cons (.num 4) .nil))).rtValid (.arr (.cons (.num 4) .nil)) = false
+    ∧ (fromConstJ (.arr (.cons (.num 4) .nil))).rtValid (.num 4) = true
+    ∧ constValidJ (.arr (.cons (.num 4) .nil)) (.num 4) = false
+    ∧ (fromConstJ (.arr (.cons (.num 4) (.cons (.str [97]) .nil)))).rtValid (.str [97]) = false
+    ∧ (fromConstJ (.arr .nil)).rtValid (.str [120]) = true := by decide
+
+theorem c11_roundtrip_members_full_false : ¬ c11_roundtrip_members_full := by
+  intro h
+  have := h (.arr (.cons (.num 4) .nil)) (.num 4)
+  exact absurd this (by decide)
+
 /-! ### round trip: ToJSONSchema (FromJSONSchema doc) validates the same instances -/
 
 mutual
